@@ -86,6 +86,27 @@ def main():
     defs = []
     m = need("src/variables/domain/sparse_set.rs", r"pub const MAX_SPARSE_SET_DOMAIN_SIZE:\s*u64\s*=\s*([\d_]+);", "MAX_SPARSE_SET_DOMAIN_SIZE")
     defs.append(("max_sparse_set_domain_size", num(m.group(1)), "sparse_set.rs MAX_SPARSE_SET_DOMAIN_SIZE"))
+    # --- search engine: limit check interval and memory estimate (search/mod.rs Engine)
+    sm = src("src/search/mod.rs")
+    ivs = set(re.findall(r"timeout_check_interval:\s*([\d_]+)\s*,", sm))
+    if len(ivs) != 1:
+        sys.stderr.write("gen_consts: timeout_check_interval initialisers disagree or are missing: %s\n" % ivs); sys.exit(1)
+    defs.append(("engine_check_interval", num(ivs.pop()), "search/mod.rs Engine timeout_check_interval"))
+    m = need("src/search/mod.rs", r"fn get_memory_usage_mb\(&self\) -> usize \{\s*(?://[^\n]*\s*)*let base_memory_kb = (\d+);.*?self\.stack\.len\(\) \* (\d+);.*?let current_memory_kb = (\d+);.*?\(self\.iteration_count / (\d+)\) \* (\d+);.*?iteration_memory_kb\) / (\d+)\)\.max\((\d+)\)", "Engine::get_memory_usage_mb formula")
+    for nm, g in zip(["mem_base_kb", "mem_frame_kb", "mem_current_kb", "mem_iter_div", "mem_iter_kb", "mem_kb_per_mb", "mem_min_mb"], m.groups()):
+        defs.append((nm, int(g), "search/mod.rs Engine::get_memory_usage_mb"))
+    # --- fluent API: placeholder bounds of auxiliary variables (runtime_api/mod.rs get_expr_var)
+    ra = src("src/runtime_api/mod.rs")
+    ph = set(re.findall(r"model\.int\((-?\d+),\s*(-?\d+)\)\s*,?\s*// Placeholder bounds", ra))
+    if len(ph) != 1:
+        sys.stderr.write("gen_consts: placeholder bounds of auxiliary variables not found or ambiguous: %s\n" % ph); sys.exit(1)
+    lo, hi = ph.pop()
+    defs.append(("aux_placeholder_lo", int(lo), "runtime_api/mod.rs placeholder bounds")); defs.append(("aux_placeholder_hi", int(hi), "runtime_api/mod.rs placeholder bounds"))
+    # --- all-different engines
+    m = need("src/variables/domain/bitset_domain.rs", r"pub const MAX_BITSET_DOMAIN_SIZE:\s*usize\s*=\s*(\d+);", "MAX_BITSET_DOMAIN_SIZE")
+    defs.append(("max_bitset_domain_size", int(m.group(1)), "bitset_domain.rs MAX_BITSET_DOMAIN_SIZE"))
+    m = need("src/constraints/gac_bitset.rs", r"if variables\.len\(\) <= (\d+) \{[^\n]*\n\s*for subset_size in 2\.\.=variables\.len\(\)\.min\((\d+)\)", "Hall-set limits")
+    defs.append(("hall_max_vars", int(m.group(1)), "gac_bitset.rs Hall sets only for <= this many variables")); defs.append(("hall_max_size", int(m.group(2)), "gac_bitset.rs largest Hall set size"))
     body = "(* GENERATED by tools/gen_consts.py from /repo — do not edit. *)\nRequire Import ZArith.\nOpen Scope Z_scope.\n"
     for name, val, where in defs:
         body += "Definition %s : Z := %d. (* %s *)\n" % (name, val, where)
